@@ -224,10 +224,10 @@ brk("B35b", "dispatcher: unknown keyword yields a warning error instead of being
 
 brk("B35c", "additionalProperties helper iterates the whole schema object",
     [(U, '''    properties = schema.get("properties", {})
-    patterns = "|".join(schema.get("patternProperties", {}))''', '''    properties = schema.get("properties", {})
+    patterns = schema.get("patternProperties", {})''', '''    properties = schema.get("properties", {})
     if len(schema) > 50:
         return
-    patterns = "|".join(schema.get("patternProperties", {}))''')], {"C10": "R10.3|"})
+    patterns = schema.get("patternProperties", {})''')], {"C10": "R10.3|"})
 
 brk("B70", "disallow: sort the keyword value in place",
     [(LV, '''    for disallowed in _utils.ensure_list(disallow):''', '''    disallow = _utils.ensure_list(disallow)
@@ -1053,3 +1053,106 @@ brk("B47h", "is_idn_host_name: UnicodeError not listed",
 
 brk("B47i", "is_draft3_time: raises dropped",
     [(F, '@_checks_drafts(draft3="time", raises=ValueError)', '@_checks_drafts(draft3="time")')], {"C13": "R13.1|"})
+
+
+# --------------------------------------------------------------------------- C01
+brk("B26", "minimum (Draft 6): < -> <=",
+    [(KV, '''    if instance < minimum:
+        yield ValidationError(
+            "%r is less than the minimum of %r" % (instance, minimum)
+        )''', '''    if instance <= minimum:
+        yield ValidationError(
+            "%r is less than the minimum of %r" % (instance, minimum)
+        )''')], {"C01": "R1.3|"})
+
+brk("B27", "minimum_draft3_draft4 ignores the modifier",
+    [(LV, '''    if schema.get("exclusiveMinimum", False):
+        failed = instance <= minimum''', '''    if False and schema.get("exclusiveMinimum", False):
+        failed = instance <= minimum''')], {"C01": "R1.3|"})
+
+brk("B27b", "maximum_draft3_draft4: modifier inverted",
+    [(LV, '''    if schema.get("exclusiveMaximum", False):
+        failed = instance >= maximum''', '''    if not schema.get("exclusiveMaximum", False):
+        failed = instance >= maximum''')], {"C01": "R1.3|"})
+
+brk("B28", "Draft 4 table: minimum bound to the Draft 6 function",
+    [(V, '''        u"minProperties": _validators.minProperties,
+        u"minimum": _legacy_validators.minimum_draft3_draft4,
+        u"multipleOf": _validators.multipleOf,''', '''        u"minProperties": _validators.minProperties,
+        u"minimum": _validators.minimum,
+        u"multipleOf": _validators.multipleOf,''')], {"C01": "R1.3|", "C10": "R10.1|", "C05": "R5.3|"})
+
+brk("B29", "minLength: drop the string gate",
+    [(KV, '''    if validator.is_type(instance, "string") and len(instance) < mL:''', '''    if len(instance) < mL:''')], {"C01": "R1.2|"})
+
+brk("B29b", "maxItems compares with >=",
+    [(KV, '''    if validator.is_type(instance, "array") and len(instance) > mI:''', '''    if validator.is_type(instance, "array") and len(instance) >= mI:''')], {"C01": "R1.3|"})
+
+brk("B29c", "maxLength: operands swapped",
+    [(KV, '''    if validator.is_type(instance, "string") and len(instance) > mL:''', '''    if validator.is_type(instance, "string") and mL > len(instance):''')], {"C01": "R1.3|"})
+
+brk("B29d", "minProperties gated on array",
+    [(KV, '''    if validator.is_type(instance, "object") and len(instance) < mP:''', '''    if validator.is_type(instance, "array") and len(instance) < mP:''')], {"C01": "R1."})
+
+brk("B29e", "enum only applies to strings",
+    [(KV, '''def enum(validator, enums, instance, schema):
+''', '''def enum(validator, enums, instance, schema):
+    if not validator.is_type(instance, "string"):
+        return
+''')], {"C01": "R1.2|"})
+
+brk("B30", "find_additional_properties: re.search -> re.match",
+    [(U, "            if any(re.search(pattern, property) for pattern in patterns):", "            if any(re.match(pattern, property) for pattern in patterns):")],
+    {"C01": "R1.4|"})
+
+brk("B30b", "patternProperties: fullmatch",
+    [(KV, "            if re.search(pattern, k):", "            if re.fullmatch(pattern, k):")], {"C01": "R1.4|"})
+
+brk("B30c", "find_additional_properties: joined alternation (pre-fix shape)",
+    [(U, '''    patterns = schema.get("patternProperties", {})
+    for property in instance:
+        if property not in properties:
+            if any(re.search(pattern, property) for pattern in patterns):''', '''    patterns = "|".join(schema.get("patternProperties", {}))
+    for property in instance:
+        if property not in properties:
+            if patterns and re.search(patterns, property):''')], {"C01": "R1.4|"})
+
+brk("B31", "extends_draft3: only the first two entries",
+    [(LV, "    for index, subschema in enumerate(extends):", "    for index, subschema in enumerate(extends[:2]):")], {"C01": "R1.5|"})
+
+brk("B31b", "allOf: islice",
+    [(KV, '''def allOf(validator, allOf, instance, schema):
+    for index, subschema in enumerate(allOf):''', '''def allOf(validator, allOf, instance, schema):
+    import itertools
+    for index, subschema in enumerate(itertools.islice(allOf, 8)):''')], {"C01": "R1.5|"})
+
+brk("B31c", "additional properties: names starting with '$' are never additional",
+    [(U, '''        if property not in properties:
+            if any(''', '''        if property not in properties and not property.startswith("$"):
+            if any(''')], {"C01": "R1.6|"})
+
+brk("B34", "_types.is_integer: drop the bool exclusion",
+    [(T, '''def is_integer(checker, instance):
+    # bool inherits from int, so ensure bools aren't reported as ints
+    if isinstance(instance, bool):
+        return False
+    return isinstance(instance, int)''', '''def is_integer(checker, instance):
+    return isinstance(instance, int)''')], {"C01": "R1.7|"})
+
+brk("B34b", "Draft 4 uses the Draft 6 type checker (integral floats are integers)",
+    [(V, """    type_checker=_types.draft4_type_checker,""", """    type_checker=_types.draft6_type_checker,""")], {"C01": "R1.7|"})
+
+brk("B34c", "is_number accepts booleans",
+    [(T, '''def is_number(checker, instance):
+    # bool inherits from int, so ensure bools aren't reported as ints
+    if isinstance(instance, bool):
+        return False
+    return isinstance(instance, numbers.Number)''', '''def is_number(checker, instance):
+    return isinstance(instance, numbers.Number)''')], {"C01": "R1.7|"})
+
+brk("B34d", "required: reports names that ARE present",
+    [(KV, '''    for property in required:
+        if property not in instance:
+            yield ValidationError("%r is a required property" % property)''', '''    for property in required:
+        if property in instance:
+            yield ValidationError("%r is a required property" % property)''')], {"C01": "R1.3b|"})
